@@ -1036,12 +1036,6 @@ func (p *c12Prop) Run(in string, scratch string) Result {
 			emptyChunk = true
 		}
 	}
-	if emptyChunk {
-		// finding C12-sql-empty-part: the SQL part store cannot hold a zero-length part (the object becomes unreadable
-		// once another part follows). M-META models one part store without that defect, so histories with empty
-		// chunks run on the filesystem store; the witness is corpus/C12/sql-empty-part.txt.pending.
-		stack = "fs"
-	}
 	if v := os.Getenv("VERIF_C12_STACK"); v != "" { // developer aid: force the part store
 		stack = v
 	}
